@@ -31,12 +31,17 @@ static double now_s() {
     return duration<double>(steady_clock::now().time_since_epoch()).count();
 }
 
+// defined by the worlds of the flavour (they know how the library was compiled): how many times more instrumented
+// accesses the same work takes in this build than in the SSE2 build the budgets were measured with (scalar byte loops: 16)
+extern "C" uint64_t qsim_step_scale() __attribute__((weak));
+
 static RunCfg cfg_from_plan(const Plan &p) {
     RunCfg c;
     c.placement   = (int)p.get("heap_place", 0);
     c.fill        = (int)p.get("heap_fill", 0);
     c.heap_seed   = derive(p.seed, "heap");
     c.step_budget = (uint64_t)p.get("step_budget", 200000000LL);
+    if (qsim_step_scale != nullptr) c.step_budget *= qsim_step_scale();
     c.soft_budget = p.get("soft_budget", 0) != 0;
     return c;
 }
